@@ -13,17 +13,19 @@ QCls == {"generic", "mysql"}
 Paths == {"ctor", "derived"}
 Variants == [name : Names, schema : Schemas, alias : Aliases, temporal : Temporal, qcls : QCls, path : Paths]
 
-Srcs == {"t", "u", "v"}
+Srcs == {"t", "u", "v", "e1", "e2"}      \* e1, e2: two aliases of ONE table (self-join)
 Cols == {"a", "b"}
 Fld(s, c) == [k |-> "fld", src |-> s, n |-> c]
 Flds == {Fld(s, c) : s \in Srcs, c \in Cols}
 Bin(o, l, r) == [k |-> "bin", op |-> o, l |-> l, r |-> r]
+Core == {Fld(s, c) : s \in {"t", "u", "v"}, c \in Cols}
 Pairs == {Bin(o, x, y) : o \in {"=", "+"}, x \in Flds, y \in Flds}
-Triples == {Bin("AND", p, Bin("=", z, [k |-> "num", n |-> "1"])) : p \in {q \in Pairs : q.op = "="}, z \in Flds}
-          \cup {Bin("=", [k |-> "call", f |-> "FN", args |-> <<x, y>>], z) : x \in Flds, y \in Flds, z \in {Fld("v", "a"), Fld("t", "a")}}
-          \cup {[k |-> "in", a |-> x, items |-> <<y, z>>] : x \in Flds, y \in {Fld("u", "a"), Fld("t", "b")}, z \in {Fld("v", "a"), Fld("t", "a")}}
-          \cup {[k |-> "between", a |-> x, lo |-> y, hi |-> Fld("v", "a")] : x \in Flds, y \in Flds}
-          \cup {[k |-> "case", w |-> Bin("=", x, y), t |-> Fld("v", "b"), e |-> Fld("t", "a")] : x \in Flds, y \in Flds}
+Triples == {Bin("AND", p, Bin("=", z, [k |-> "num", n |-> "1"])) : p \in {q \in Pairs : q.op = "=" /\ q.l \in Core /\ q.r \in Core}, z \in Core}
+          \cup {Bin("AND", Bin("=", Fld("e1", "a"), Fld("e2", "a")), Bin("=", z, [k |-> "num", n |-> "1"])) : z \in Flds}
+          \cup {Bin("=", [k |-> "call", f |-> "FN", args |-> <<x, y>>], z) : x \in Core, y \in Core, z \in {Fld("v", "a"), Fld("t", "a")}}
+          \cup {[k |-> "in", a |-> x, items |-> <<y, z>>] : x \in Core, y \in {Fld("u", "a"), Fld("t", "b")}, z \in {Fld("v", "a"), Fld("t", "a")}}
+          \cup {[k |-> "between", a |-> x, lo |-> y, hi |-> Fld("v", "a")] : x \in Core, y \in Core}
+          \cup {[k |-> "case", w |-> Bin("=", x, y), t |-> Fld("v", "b"), e |-> Fld("t", "a")] : x \in Core, y \in Core}
 Trees == Pairs \cup Triples
 
 VARIABLES kind, item
